@@ -116,7 +116,11 @@ class SolvingWrapper(ScriptedWrapper):
         return "scripted", "none", float(self.Fv[self.objective.counter])
     def _recover_dual_values(self):
         n = Point.counter
-        residual = np.eye(n)
+        # the multiplier of `G >= 0`: eigenvalues spread over twelve orders of magnitude and a non-zero off-diagonal pair (a
+        # residual "cleaned", thresholded or symmetrised on its way to `PEP.residual` is not the one the solver returned)
+        residual = np.diag([2.0 ** -((7 * i) % 41) for i in range(n)])
+        if n >= 2: residual[0, 1] = residual[1, 0] = 2.0 ** -9
+        self.last_residual = residual.copy()
         duals = [residual]
         for k, item in enumerate(self._list_of_constraints_sent_to_solver):
             if isinstance(item, Constraint): duals.append(float(1000 + k))
@@ -155,15 +159,22 @@ class Impl:
         names = [p for p in inspect.signature(C.__init__).parameters if p in ("mu", "L", "M", "D", "beta", "rho")]
         kw = {}
         vals = [self.R(r) for r in rest]
+        # the TYPE of the parameters: Python floats, or (one declaration in two) the numbers as a user types them (`L=1`, `mu=0`:
+        # Python ints where the value is an integer); a harness may force another scalar type (`ptype`, e.g. numpy.float32)
+        import zlib
+        ptype = getattr(self, "ptype", None)
+        if ptype is not None: conv = ptype
+        elif zlib.crc32(("ptype %s %s %s" % (n, cls, " ".join(rest))).encode()) % 2 == 0: conv = lambda v: v
+        else: conv = float
         if cls == "BlockSmoothConvexFunction":
-            kw = dict(partition=part, L=[float(v) for v in vals])
+            kw = dict(partition=part, L=[conv(v) for v in vals])
         else:
             it = iter(vals)
             for p in names:
                 if inf == "1" and p in ("D", "M") and cls in ("ConvexIndicatorFunction", "ConvexSupportFunction"):
                     kw[p] = np.inf
                 else:
-                    kw[p] = float(next(it))
+                    kw[p] = conv(next(it))
         if "reuse_gradient" in inspect.signature(C.__init__).parameters:
             kw["reuse_gradient"] = (reuse == "1")
         self.o[n] = C(**kw) if direct else self.pep.declare_function(C, **kw); return "ok"
@@ -432,6 +443,8 @@ class Impl:
             ret = self.pep._solve_with_wrapper(self.wrapper, verbose=0)
         G, F = self.wrapper.G, self.wrapper.Fv
         self.last_line = "solve.ok G=%s F=%s" % (";".join(",".join(showrat(v) for v in row) for row in G), ",".join(showrat(v) for v in F))
+        if not (isinstance(self.pep.residual, np.ndarray) and np.array_equal(self.pep.residual, self.wrapper.last_residual)):
+            return "ok %s RESIDUAL-ALTERED (PEP.residual is not the multiplier of the Gram constraint returned by the wrapper)" % showrat(float(ret))
         return "ok " + showrat(float(ret))
     def op_solve_okp(self, seed):
         self.wrapper = SolvingWrapper(int(seed))
@@ -440,6 +453,8 @@ class Impl:
             ret = self.pep._solve_with_wrapper(self.wrapper, verbose=0, return_primal_or_dual="primal")
         G, F = self.wrapper.G, self.wrapper.Fv
         self.last_line = "solve.okp G=%s F=%s" % (";".join(",".join(showrat(v) for v in row) for row in G), ",".join(showrat(v) for v in F))
+        if not (isinstance(self.pep.residual, np.ndarray) and np.array_equal(self.pep.residual, self.wrapper.last_residual)):
+            return "ok %s RESIDUAL-ALTERED (PEP.residual is not the multiplier of the Gram constraint returned by the wrapper)" % showrat(float(ret))
         return "ok " + showrat(float(ret))
     def op_solve_fail(self):
         self.wrapper = ScriptedWrapper(); self.pep._solve_with_wrapper(self.wrapper, verbose=0); return "ok"
@@ -556,6 +571,9 @@ class Prog:
         self.rnd = rnd; self.lines = ["reset"]; self.np = 0; self.ne = 0; self.nc = 0; self.nf = 0; self.nb = 0
         self.P, self.E, self.C, self.F, self.B = [], [], [], [], []
         self.fcls = {}; self.scale = None
+        import zlib
+        # one program in three gives LONG names to its named points (longer than any default identifier, `Point_123`)
+        self.longnames = zlib.crc32(repr(rnd.getstate()[1][:3]).encode()) % 3 == 0
     def scaled(self, ps):
         """the parameter tuple multiplied by the program's power of two (None: unchanged): `mu <= L` and every equality between
         parameters are preserved, every coefficient the class computes is the unscaled one times a power of two"""
@@ -595,8 +613,8 @@ class Prog:
             u_ = self.rnd.random()
             if getattr(self, "shared_labels", False) and u_ < .6: u_ = .95
             if u_ < .75: self.emit("pt.leaf %s" % n)
-            elif u_ < .9: self.emit("pt.leafn %s nm%s" % (n, n))
-            else: self.emit("pt.leafn %s %s" % (n, self.rnd.choice(["x", "x", "Point_1", "y"])))      # labels shared by several points, or equal to a default id
+            elif u_ < .9: self.emit("pt.leafn %s %s%s" % (n, "iterate_number_" if self.longnames else "nm", n))
+            else: self.emit("pt.leafn %s %s" % (n, self.rnd.choice(["x", "x", "Point_1", "y", "x_{k+1}", "{}", "%s_{0}"])))      # labels shared by several points, equal to a default id, or with characters that mean something to str.format / %
             return n
         a, b = self.rnd.choice(self.P), self.rnd.choice(self.P); n = self.newp()
         self.emit("pt.lin %s %s %s %s %s" % (n, self.rnd.choice(W), a, self.rnd.choice(W), b)); return n
@@ -818,6 +836,9 @@ def gen_resolve(seed):
         p.P = p.P[:2] + [acc] + p.P[2:6]
     for _ in range(rnd.randint(1, 2)):
         p.decl(rnd.choice(["SmoothStronglyConvexFunction", "ConvexFunction", "SmoothConvexFunction", "MonotoneOperator", "ConvexQGFunction"]))
+    if det_choice(seed, "fnames", 3) == 0:
+        # user-given function names, LaTeX-like ones included: a name is a label (it ends up in constraint names and messages)
+        for i_, f_ in enumerate(p.F): p.emit("fn.setname %s %s" % (f_, ["f_{L}", "h", "{0}", "g%d"][(det_choice(seed, "fname", 4) + i_) % 4]))
     for _ in range(rnd.randint(1, 4)): p.sample_ops(rnd.choice(p.F), 1)
     def expr():
         a, b = rnd.choice(p.P), rnd.choice(p.P); n = p.newe(); p.emit("ex.ip %s %s %s" % (n, a, b))
@@ -877,6 +898,12 @@ def gen_resolve(seed):
         elif kind == "psddual" and mats: p.emit("eval.psddual %s" % rnd.choice(mats))
         elif kind == "ex" and p.E: p.emit("eval.ex %s" % rnd.choice(p.E))
         else: p.emit("eval.ptn %s" % rnd.choice(p.P))
+    if det_choice(seed, "failfirst", 4) == 0:
+        # the FIRST solve finds no value: the tables of constraints exist, no multiplier does; every accessor must raise the
+        # documented ValueError (whatever the names of the functions and points are)
+        p.emit("solve.fail")
+        for f_ in p.F: p.emit("dump.dualtables %s" % f_)
+        for c_ in p.C[:2]: p.emit("eval.dual %s" % c_)
     for _ in range(rnd.randint(3, 14)):
         r = rnd.random()
         if rnd.random() < .15:
